@@ -1326,3 +1326,50 @@ def _parent_body(fn, node):
                     if isinstance(st, ast.Expr) and st.value is node:
                         return b, i
     return None
+
+
+# --------------------------------------------------------------------------- C19 (selection filters)
+@register("C19")
+def c19_sites(repo_root, tier):
+    """find / find_index / has / where / reject: the string-key form and the lambda form select by the same predicate
+    (Liquid truthiness of the looked-up value, resp. equality with the given value), and `has` is `a match exists`."""
+    repo = Repo(repo_root)
+    obs = []
+    spec = {("liquid2.builtin.filters.find_filters", "FindFilter"): False, ("liquid2.builtin.filters.find_filters", "FindIndexFilter"): False,
+            ("liquid2.builtin.filters.find_filters", "HasFilter"): False, ("liquid2.builtin.filters.filtering_filters", "WhereFilter"): False,
+            ("liquid2.builtin.filters.filtering_filters", "RejectFilter"): True}
+    for (mn, cn), negated in spec.items():
+        m = repo.module(mn)
+        fn = m.find(f"{cn}.__call__") if m else None
+        if fn is None:
+            _ob(obs, f"{mn}:{cn}.__call__/site.selection-predicate", False, "not found")
+            continue
+        conds = []
+        for n in ast.walk(fn):
+            if isinstance(n, ast.comprehension):
+                conds.extend(ast.unparse(c) for c in n.ifs)
+            elif isinstance(n, ast.If) and "rv" in ast.unparse(n.test):
+                conds.append(ast.unparse(n.test))
+            elif isinstance(n, ast.Call) and ast.unparse(n.func) == "any" and n.args and isinstance(n.args[0], ast.GeneratorExp) and not n.args[0].generators[0].ifs:
+                conds.append(ast.unparse(n.args[0].elt))
+        lam_ok = ("is_undefined(r) or not is_truthy(r)" if negated else "not is_undefined(r) and is_truthy(r)")
+        want = {lam_ok, lam_ok.replace("(r)", "(rv)"),
+                ("_getitem(itm, key) != value" if negated else "_getitem(itm, key) == value"),
+                ("not is_truthy(_getitem(itm, key))" if negated else "is_truthy(_getitem(itm, key))")}
+        bad = [c for c in conds if c not in want]
+        ok = not bad and len(conds) >= 3
+        _ob(obs, f"{mn}:{cn}.__call__/site.selection-predicate", ok,
+            f"selects by {sorted(set(conds))}: Liquid truthiness (is_truthy) of the looked-up value in the string-key form, as in the lambda form" if ok
+            else f"selection predicates {bad or conds} differ from the lambda form's truthiness test (e.g. `not in (False, None)` is false for 0)")
+    # has == a match exists: any() over booleans, not over the matching items
+    m = repo.module("liquid2.builtin.filters.find_filters")
+    fn = m.find("HasFilter.__call__") if m else None
+    ok = fn is not None
+    if fn is not None:
+        for n in ast.walk(fn):
+            if isinstance(n, ast.Call) and ast.unparse(n.func) == "any":
+                g = n.args[0]
+                ok = ok and isinstance(g, ast.GeneratorExp) and not g.generators[0].ifs and not isinstance(g.elt, ast.Name)
+    _ob(obs, "liquid2.builtin.filters.find_filters:HasFilter.__call__/site.any-over-matches", ok, "has reduces any() over the match tests, not over the matching items (whose own truthiness is irrelevant)")
+    return {"obligations": obs, "samples": [], "trusted": ["user __getitem__ is deterministic (the same lookup gives the same value in both forms)"], "functions": [],
+            "assumptions": [], "not_covered": ["sort/uniq/compact/map/concat/slice laws, split/join, url and base64 inverses, strip/replace/remove: not under contract"]}
